@@ -84,6 +84,17 @@ def gauss (j : Json) : Except String Json := do
                 ("left_layers", J.ofList (J.ofList ofRot) o.leftLayers),
                 ("diag", J.ofList J.ofGQ o.diag), ("left_diag", J.ofList J.ofGQ o.leftDiag)])
 
+/-- do the executable hypotheses of the reconstruction theorems hold for this input?
+(`square_decomposition_checked` / `givens_decomposition_checked`) -/
+def hypotheses (j : Json) : Except String Json := do
+  let Q ← parseMat (← J.field j "Q")
+  let n ← J.nat (← J.field j "n")
+  let ai ← J.bool (J.fieldD j "ai" (Json.bool false))
+  let tol ← tolOf j
+  let sq := Q.length == n
+  let probe := if sq then squareHypothesesB tol Q ai else givensHypothesesB tol Q n ai
+  .ok (J.obj [("probe", Json.bool probe), ("orthonormal", Json.bool (orthonormalB Q Q.length n))])
+
 /-- Spec: structural statement on a returned decomposition (index lists per op per layer) -/
 def specLayers (j : Json) : Except String Json := do
   let n ← J.nat (← J.field j "n")
@@ -101,6 +112,7 @@ def handle (op : String) (j : Json) : Option (Except String Json) :=
   | "c11.givens" => some (givens j)
   | "c11.gauss" => some (gauss j)
   | "c11.spec.layers" => some (specLayers j)
+  | "c11.hypotheses" => some (hypotheses j)
   | _ => none
 
 end C11
